@@ -10,7 +10,8 @@ for d in sorted(glob.glob(os.path.join(HERE, "seeded", "*"))):
     w = tempfile.mkdtemp(prefix="wt-sr.", dir="/tmp"); os.rmdir(w)
     subprocess.run(["git", "-C", "/repo", "worktree", "add", "-q", "--detach", w, "HEAD"], check=True)
     try:
-        if subprocess.run(["git", "-C", w, "apply", os.path.join(d, "patch.diff")], capture_output=True).returncode != 0:
+        pf = os.path.join(d, "patch.rebased.diff") if os.path.exists(os.path.join(d, "patch.rebased.diff")) else os.path.join(d, "patch.diff")
+        if subprocess.run(["git", "-C", w, "apply", pf], capture_output=True).returncode != 0:
             rows.append((os.path.basename(d), chk, "NOAPPLY")); continue
         env = dict(os.environ, ZSTD_REPO=w, ZCHECK_OUT=os.path.join(w, "_o"), VERIF_TIER="quick")
         p = subprocess.run([os.path.join(HERE, "check"), chk], capture_output=True, text=True, env=env, cwd=HERE)
